@@ -6,7 +6,7 @@ check). Suite sizes are (quick, thorough) numbers of cases."""
 TRUSTED_BASE = [
     "Lean 4.33 kernel; axioms limited to propext, Classical.choice, Quot.sound (audited per theorem on every run); no native_decide / bv_decide / sorry",
     "statements: lean/ERP/Spec/* and the property files lean/ERP/Properties/* (the Lean reference printer and reference reader are cross-checked against the Python ones of the oracles by the printer / text suites)",
-    "translator harness/translate.py (regexes, constants, handler/event tables regenerated from /repo on every run)",
+    "translator harness/translate.py (regexes, constants, handler/event tables, region geometry expressions regenerated from /repo on every run)",
     "correspondence harness (harness/suites.py, corr.py): the Float instance of the model is compared with the implementation on generated operation sequences, outputs and full state digest after every operation; differences its generators never produce are not seen",
     "CPython float()/repr()/math.* and Lean's Float agreeing on + - * / sqrt sin cos atan2 (checked continuously by the suites, not proved)",
     "theorems are about exact arithmetic over an ordered field (or the reals); IEEE rounding is outside every theorem",
@@ -15,14 +15,14 @@ TRUSTED_BASE = [
 
 SUITES = {
     # name: (generator name in suites.py, quick n, thorough n)
-    "filter": ("gen_filter_mixed", 250, 6000),
-    "parser": ("gen_parser_case", 1200, 40000),
-    "text": ("misc_text_case", 1500, 60000),
-    "region": ("region_case", 1200, 40000),
-    "arc": ("arc_case", 600, 12000),
-    "plugin": ("gen_plugin_case", 150, 4000),
-    "stream": ("gen_stream_case", 200, 5000),
-    "printer": ("printer_case", 150, 5000),
+    "filter": ("gen_filter_mixed", 250, 20000),
+    "parser": ("gen_parser_case", 1200, 120000),
+    "text": ("misc_text_case", 1500, 150000),
+    "region": ("region_case", 1200, 120000),
+    "arc": ("arc_case", 600, 40000),
+    "plugin": ("gen_plugin_case", 150, 12000),
+    "stream": ("gen_stream_case", 200, 15000),
+    "printer": ("printer_case", 150, 15000),
 }
 
 PROPS = {
